@@ -195,4 +195,17 @@ var specs = []CheckSpec{
 		Assumptions: append([]string{"the target directory exists and is a directory (the property quantifies over directories with pre-existing files); O_EXCL on an existing path fails", "lexical containment: no symbolic links in the model"}, commonAssumptions...),
 		Outside:     []string{"the txtar-c / txtar-x directory-tree round trip (needs a directory-walk model that was not built)", "symbolic links inside the target directory", "a target directory that does not exist"},
 	},
+	{
+		ID: "C01", Pkg: "testscript",
+		Harnesses: []HarnessSpec{
+			{Fn: "VerifC01Verdict", Quick: map[string]int{"K": 2}, Thorough: map[string]int{"K": 3}, Witness: []string{"pass", "fail", "skip", "continue-on-error"}},
+		},
+		Bounds: map[string]string{
+			"quick":    "scripts of <= 2 lines over a menu of 21 line shapes (probe, ! probe, [c] probe, [!c] probe, [c] ! probe, stop, ! stop, skip, unknown command, [c] alone, ! alone, # phase, blank, bad condition, exists / ! exists / exists-missing, cmp / ! cmp on two archive files with symbolic contents, mkdir, chmod with two paths); probe outcomes, the two condition values, file contents and ContinueOnError symbolic; run through the real RunT with a synchronous recording T",
+			"thorough": "<= 3 lines",
+		},
+		Stubs: []string{"vfs model for os/file calls, time.Now/Since (concrete clock), regexp on concrete arguments (native), flag definitions, sync (sequential)", "T: synchronous recording implementation; FailNow/Skip unwind by panic (deferred functions run as with runtime.Goexit)"},
+		Assumptions: append([]string{"the reference evaluator over line selectors (40 lines, in the harness) states the property: first failing line decides, stop = pass, skip = skipped unless a line already failed, [cond] false lines have no effect, ContinueOnError runs every line and still fails"}, commonAssumptions...),
+		Outside:     []string{"exec, background commands (&), kill, wait on real processes, grep/stdout/stderr matching on symbolic text, symlink, unix2dos, cmpenv (C16 covers cmpenv under UpdateScripts), stdin/ttyin", "parallel subtests (C04)", "the standalone command's exit mapping beyond the recording T (see cmd/testscript harness if registered)", "scripts longer than the bound"},
+	},
 }
